@@ -121,6 +121,7 @@ static struct {
 	uint32_t site_mask;   // site strategy: hot buckets (hash of file:line % 32)
 	uint64_t burst[8]; int nburst;
 	int harness_yield_permille;
+	int sig_interval_us;  // > 0: a pinger thread interrupts the client threads with a handled, non-SA_RESTART signal at this interval (EINTR in every blocking call)
 } P;
 static __thread unsigned long hrng;
 static _Atomic unsigned long hook_thr_ctr;
@@ -184,10 +185,38 @@ static void dvm_crash_bt(int sig) {
 	backtrace_symbols_fd(bt, n, 2);
 	signal(sig, SIG_DFL); raise(sig);
 }
+// ---- EINTR injection: client threads (never the library's workers, which mask signals) register themselves; a pinger thread sends each of
+// them a signal whose handler does nothing and was installed WITHOUT SA_RESTART, so every blocking system call the library makes on their
+// behalf (futex waits of dispatch_once / dispatch_group_wait / dispatch_sync waiters, sem_timedwait, ...) may return EINTR at any time
+#define SIG_PING (SIGRTMIN + 3)
+static pthread_mutex_t sig_mu = PTHREAD_MUTEX_INITIALIZER;
+static pthread_t sig_targets[1024]; static int sig_used[1024];
+static _Atomic int sig_stop; static _Atomic long sig_sent;
+static void sig_noop(int s) { (void)s; }
+static int sig_register(void) {
+	if (P.sig_interval_us <= 0) return -1;
+	pthread_mutex_lock(&sig_mu);
+	int k = -1; for (int i = 0; i < 1024; i++) if (!sig_used[i]) { sig_used[i] = 1; sig_targets[i] = pthread_self(); k = i; break; }
+	pthread_mutex_unlock(&sig_mu);
+	return k;
+}
+static void sig_unregister(int k) { if (k < 0) return; pthread_mutex_lock(&sig_mu); sig_used[k] = 0; pthread_mutex_unlock(&sig_mu); }
+static void *sig_pinger(void *arg) {
+	(void)arg;
+	sigset_t all; sigfillset(&all); pthread_sigmask(SIG_BLOCK, &all, 0);
+	while (!atomic_load(&sig_stop)) {
+		struct timespec ts = { 0, (long)P.sig_interval_us * 1000 }; nanosleep(&ts, 0);
+		pthread_mutex_lock(&sig_mu);
+		for (int i = 0; i < 1024; i++) if (sig_used[i]) { pthread_kill(sig_targets[i], SIG_PING); atomic_fetch_add(&sig_sent, 1); }
+		pthread_mutex_unlock(&sig_mu);
+	}
+	return NULL;
+}
 // called at the start of main(), after the library constructor has already sized its pools from the inherited mask
 static void mode_setup(void) {
 	{ struct sigaction sa; memset(&sa, 0, sizeof sa); sa.sa_handler = dvm_crash_bt; sa.sa_flags = SA_NODEFER | SA_RESETHAND;
 	  sigaction(SIGILL, &sa, 0); sigaction(SIGSEGV, &sa, 0); sigaction(SIGBUS, &sa, 0); }
+	{ struct sigaction sa; memset(&sa, 0, sizeof sa); sa.sa_handler = sig_noop; sa.sa_flags = 0; sigaction(SIG_PING, &sa, 0); }
 	if (P.mode == MODE_F1 || P.mode == MODE_P1) {
 		cpu_set_t cs; CPU_ZERO(&cs); CPU_SET(P.cpu, &cs);
 		sched_setaffinity(0, sizeof cs, &cs);
@@ -210,6 +239,7 @@ static int parse_cfg_kv(const char *k, long v) {
 	else if (!strcmp(k, "sites")) P.site_mask = (uint32_t)v;
 	else if (!strcmp(k, "burst")) { if (P.nburst < 8) P.burst[P.nburst++] = (uint64_t)v; }
 	else if (!strcmp(k, "hyield")) P.harness_yield_permille = (int)v;
+	else if (!strcmp(k, "sigint")) P.sig_interval_us = (int)v;
 	else return 0;
 	return 1;
 }
